@@ -18,7 +18,8 @@ RULE = ('fault enumeration per connect/disconnect cycle: server behaviour at '
         'non-OPEN first packet, valid OPEN, ws refused, ws garbage, ws closed} '
         'x transports {[polling], [websocket], [polling,websocket] with probe '
         '{ok, wrong, silent, closed, ws refused}} x how the connection ends '
-        '{server CLOSE, server silence, dropped connection, failed POST, '
+        '{server CLOSE, server silence, dropped connection, failed POST (with '
+        'the polls starving or still answered), '
         'client disconnect() from the main task / a message handler / the '
         'connect handler / the disconnect handler, disconnect(abort=True), '
         'disconnect() after the write loop died on a failed send} x '
@@ -43,7 +44,7 @@ PROBES = ['ok', 'wrong', 'silent', 'close', 'refuse']
 ENDERS = ['server-close', 'silence', 'drop', 'post-fail', 'client-main',
           'client-in-message', 'client-in-connect', 'client-in-disconnect',
           'client-abort', 'write-dead-then-client', 'client-during-post',
-          'garbage']
+          'garbage', 'post-fail-polls-ok']
 PI, PT = 2, 1
 
 
@@ -209,6 +210,27 @@ def one_cycle(rec, w, V, case, cyc, openb, transport, probe, ender, rng):
         if want_tr == 'polling':
             srv.script['post'] = 'fail-status'
             c.call('send', 'doomed')
+        else:
+            srv.ws.server_close()
+        want_reason = 'transport error'
+    elif ender == 'post-fail-polls-ok':
+        # a POST is refused with an HTTP status while the long-polls keep
+        # being answered (the server PINGs on): the connection is still lost
+        if want_tr == 'polling':
+            srv.script['post'] = 'fail-status'
+            c.call('send', 'doomed')
+            w.quiesce()
+            for _ in range(40):
+                if any(e['ev'] == 'disconnect' for e in c.events[ev0:]):
+                    break
+                srv.push('2')
+                w.advance(0.5)
+            else:
+                V('connection-survives-failed-post', 'a POST was answered '
+                  '400 twenty virtual seconds ago; the polls are still '
+                  'answered and the client is still %r with no disconnect '
+                  'event' % c.c.state)
+                return False
         else:
             srv.ws.server_close()
         want_reason = 'transport error'
